@@ -21,7 +21,7 @@ LEVEL_TEXT = ("Action sequences of up to 30 steps are generated for both API typ
 RULE = ("case = API type + step list over {connect, op_ok, op_raises(login EOF | rejected argument), disconnect, refused_connect, "
         "context_ok, context_body_raises}; non-trivial = contains a reconnect after a failure, a body exception or a refused "
         "connect; distinct by the step list."
-        ' Body exceptions are drawn from 8 classes including OSError subclasses and CancelledError; a refused connection is also provoked through the async context (refused_context).')
+        ' Further steps: idle (1 s .. 25 h of event-loop time under the harness-owned loop clock) and new_loop (the event loop is closed and a new one created while disconnected; the API object is kept). A separate sub-check opens 2..100 clients at once and disconnects them in a generated order. Body exceptions are drawn from 8 classes including OSError subclasses and CancelledError; a refused connection is also provoked through the async context (refused_context).')
 ASSUMPTIONS = [
     "connect while already connected is not generated (undocumented); TCP resets are outside the fault alphabet",
     "the device observes end-of-stream when its reader returns b'' for that connection; waited for with loop turns plus a bounded real-time wait for kernel FIN delivery",
@@ -90,9 +90,21 @@ class Lifecycle:
     def apply(self, step):
         self.trace.append(step)
         try:
-            net.run(self._apply(step), timeout=60)
+            if step["action"] == "new_loop":
+                # the program's first event loop is closed and a second one created (asyncio.run() called twice); the API
+                # object is kept.  Only generated while disconnected.
+                net.run(env.restart_on_new_loop_prepare(), timeout=60)
+                net.new_loop()
+                self.dev = net.run(env.device())
+                self.base_open = self.dev.open
+                net.run(self._invariants(step), timeout=60)
+                return
+            net.run(self._apply(step), timeout=60 + 2 * step.get("secs", 0))
             net.run(self._invariants(step), timeout=60)
         except asyncio.TimeoutError:
+            import traceback, os
+            if os.environ.get("VERIF_DEBUG"):
+                traceback.print_exc()
             self.fail(f"step-hangs/{step['action']}", "step completes", "no completion within 60 s")
 
     async def _apply(self, step):
@@ -134,6 +146,8 @@ class Lifecycle:
                         self.fail("nothing-actionable-accepted", "RuntimeError", "returned")
                     except RuntimeError:
                         pass
+        elif a == "idle":
+            await net.idle(step["secs"])      # event-loop time passes (harness-owned clock), nothing else happens
         elif a == "disconnect":
             try:
                 await self.api.disconnect()
@@ -227,7 +241,7 @@ def nontrivial(steps):
             failure_seen = True
         if failure_seen and a in ("connect", "context_ok"):
             return True
-    return "context_body_raises" in acts or "refused_connect" in acts
+    return "context_body_raises" in acts or "refused_connect" in acts or "new_loop" in acts
 
 
 def body(rep, case):
@@ -239,6 +253,61 @@ def body(rep, case):
             sysm.apply(step)
     finally:
         sysm.close()
+
+
+async def run_many(rep, case):
+    """n API objects of one type connected at the same time, then disconnected in the given order: each disconnect must
+    make the device see end-of-stream on exactly that client's connection, whatever else is open."""
+    dev = await env.device()
+    await dev.kill_connections()
+    typ, n = case["type"], case["n"]
+    base = dev.open
+    clients = [ops.Client(dev, typ, f"{i + 1:06x}", "18") for i in range(n)]
+    try:
+        for i, cl in enumerate(clients):
+            await cl.connect()
+            if cl.api.connected is not True:
+                raise Violation("C18/connected-flag/many-clients", case, True, cl.api.connected)
+        if dev.open - base != n:
+            raise Violation("C18/device-connection-count/many-clients/after-connect", case, n, dev.open - base)
+        order = sorted(range(n), key=lambda i: (i * case["stride"] + case["shift"]) % n if case["stride"] else i)
+        left = n
+        for k, i in enumerate(order):
+            cl = clients[i]
+            await cl.api.disconnect()
+            left -= 1
+            if cl.api.connected is not False:
+                raise Violation("C18/connected-flag/many-clients", case, False, cl.api.connected)
+            for j in range(700):
+                if cl.conn.client_eof:
+                    break
+                await asyncio.sleep(0 if j < 500 else 0.002)
+            if not cl.conn.client_eof:
+                raise Violation("C18/no-end-of-stream-after-disconnect/many-clients", case,
+                                {"client": i, "eof_seen": True}, {"client": i, "eof_seen": False, "open_at_once": n})
+        if dev.open - base != 0:
+            raise Violation("C18/device-connection-count/many-clients/after-disconnect", case, 0, dev.open - base)
+    finally:
+        for cl in clients:
+            await cl.close()
+        await dev.kill_connections()
+
+
+def body_many(rep, case):
+    rep.tick("many-clients", key=case, nontrivial=case["n"] >= 2, sample=case, labels=(f"clients>={min(case['n'] // 32 * 32, 96)}",))
+    net.run(run_many(rep, case), timeout=120)
+
+
+def cases_many(tier):
+    def gen_cases():
+        out = []
+        sizes = [2, 3, 17, 33, 64, 65, 66, 100] + ([128, 129, 200, 257, 300] if tier == "thorough" else [])
+        for typ in (1, 2):
+            for n in sizes:
+                for stride, shift in ((0, 0), (1, n // 2), (7, 3)):
+                    out.append({"type": typ, "n": n, "stride": stride if n % 7 else 1, "shift": shift})
+        return out
+    return gen_cases
 
 
 def machine_factory(typ):
@@ -280,6 +349,15 @@ def machine_factory(typ):
             def disconnect(self):
                 self.do({"action": "disconnect"})
 
+            @rule(secs=st.sampled_from([1, 61, 301, 3601, 90_000]))
+            def idle(self, secs):
+                self.do({"action": "idle", "secs": secs})
+
+            @precondition(lambda self: not self.sys.model_connected)
+            @rule()
+            def new_loop(self):
+                self.do({"action": "new_loop"})
+
             @precondition(lambda self: not self.sys.model_connected)
             @rule()
             def refused_connect(self):
@@ -314,4 +392,4 @@ def machine_factory(typ):
 def subchecks(tier):
     big = tier == "thorough"
     return [Sub(f"type{t}", body, machine=machine_factory(t), n=30_000 if big else 800, steps=30, shards=8 if big else 4)
-            for t in (1, 2)]
+            for t in (1, 2)] + [Sub("many-clients", body_many, cases=cases_many(tier), shards=4, exhaustive=False)]
